@@ -34,7 +34,11 @@ func zzIsPrefixPath(a, b []int32) bool {
 // some removed path is a prefix of its path, the kept locations keep their order and
 // identity, the input SourceCodeInfo is not modified, and filtering twice changes nothing.
 func HarnessC22Paths() {
-	np := zz.IntRange(0, 2)
+	mp, ml := 2, 3
+	if zz.Tier() == 1 {
+		mp, ml = 3, 4
+	}
+	np := zz.IntRange(0, mp)
 	var removed [][]int32
 	trie := &sourcePathTrie{}
 	for i := 0; i < np; i++ {
@@ -42,7 +46,7 @@ func HarnessC22Paths() {
 		removed = append(removed, p)
 		trie.addPath(sourcePath(p))
 	}
-	nl := zz.IntRange(1, 3)
+	nl := zz.IntRange(1, ml)
 	in := &descriptorpb.SourceCodeInfo{}
 	var orig []*descriptorpb.SourceCodeInfo_Location
 	var gone []bool
